@@ -9,6 +9,6 @@ CONSTANTS N = 3
  ReadErrAllowed = TRUE
  FixWorkerErr = TRUE
  FixQueueCtx = TRUE
- WriterLimit = 0
-INVARIANTS ProgressWithoutEnvironment RecvOKImpliesComplete SendOKImpliesFin NoDataOverrun TypeOK
+ WriterLimit = 1
+INVARIANTS ProgressWithoutEnvironment
 CHECK_DEADLOCK TRUE
